@@ -277,6 +277,12 @@ def run(F, chk):
                           "being re-derived or adjusted: it now designates a different block" % (name, fn["name"]))
     chk.floor(R5, 12, "(uses of block-index integers in functions that delete blocks)")
 
+    # ---------------------------------------------------------------- R6.9 (= C04 R4.3 on the same facts)
+    chk.share(F, "c04", ["R4.3"], "R6.9",
+              "SetBlockOrder applies one permutation, in one direction, to the block list and to every header table that is parallel "
+              "to it (type indices, gated sizes) and to both reference kinds")
+    chk.floor("R6.9", 6)
+
     # ---------------------------------------------------------------- R6.8
     chk.share(F, "c05", ["R5.1", "R5.2", "R5.5"], "R6.8",
               "BlockDeleted and SetBlockOrder fix up exactly the references the enumerators report")
